@@ -136,7 +136,7 @@ func (e *Engine) expectedOrder(n *Node, seed uint64) []string {
 		if n.Dig != nil {
 			t = n.Dig.tuple(k)
 		} else {
-			t = defaultDigests(keyValue(ent.K), seed)
+			t = e.defaultDigests(keyValue(ent.K), seed)
 		}
 		ks = append(ks, ke{k, t, n.Ins[k]})
 	}
@@ -158,8 +158,8 @@ func (e *Engine) expectedOrder(n *Node, seed uint64) []string {
 
 // defaultDigests recomputes the default digester's four levels for key v:
 // CircleHash64f(seed) of the hash input, then the first three 64-bit words of BLAKE3-256.
-func defaultDigests(v atree.Value, seed uint64) []uint64 {
-	msg, err := hashInput(v, nil)
+func (e *Engine) defaultDigests(v atree.Value, seed uint64) []uint64 {
+	msg, err := e.CB.Msg(v, nil)
 	if err != nil {
 		panic(err)
 	}
